@@ -149,4 +149,319 @@ theorem sliceSpec_neg (l : List α) (A B K : Nat) (hK : 1 ≤ K) :
   have hn : ¬ (((B - 1 - K * j : Nat) : Int) < 0) := by omega
   simp only [Function.comp, e, hn, if_false, Int.toNat_natCast]
 
+/-! ### the four walks of a Slice inside the region -/
+
+theorem rangeLen_eq_pos (A B C q : Nat) (hC : 1 ≤ C) (h : ∀ j : Nat, A + C * j < B ↔ j < q) :
+    rangeLen A B C = q := by
+  apply nat_eq_of_lt_iff
+  intro j
+  rw [← rangeLen_pos_iff (A : Int) (B : Int) (C : Int) (by omega) j, ← h j]
+  have e : (A : Int) + (C : Int) * (j : Int) = ((A + C * j : Nat) : Int) := by push_cast; rfl
+  rw [e]; omega
+
+theorem rangeLen_eq_neg (A B K q : Nat) (hK : 1 ≤ K) (h : ∀ j : Nat, (A + K * j + 1 ≤ B) ↔ j < q) :
+    rangeLen A B (-(K : Int)) = q := by
+  apply nat_eq_of_lt_iff
+  intro j
+  rw [← rangeLen_neg_iff (A : Int) (B : Int) (-(K : Int)) (by omega) j, ← h j]
+  have hm : -(K : Int) * (j : Int) = -(((K * j : Nat)) : Int) := by push_cast; rw [Int.neg_mul]
+  rw [hm]; omega
+
+/-- positive step, forward: the walk lands exactly on Terminal (`A + q*C = n`) and `stop` lies in the last stride -/
+theorem slice_fwd_pos (I : Iterable α) {l : List α} (h : FwdAs I l) (A B C q : Nat) (hC : 1 ≤ C)
+    (hA : A + q * C = l.length) (hB : B ≤ l.length) (hreg : q = 0 ∨ l.length < B + C) :
+    FwdAs (sliceI I l.length A B C) (sliceSpec l A B C) := by
+  intro s
+  have hc : (C : Int) > 0 := by omega
+  have hnext : (sliceI I l.length A B C).next = fun s => stepN I.next (C - 1) (I.next s) := by
+    funext s; simp only [sliceI, hc, if_true, Int.toNat_natCast]
+  have hinit : (sliceI I l.length A B C).init s = stepN I.next A (I.init s) := by
+    simp only [sliceI, hc, if_true, Int.toNat_natCast]
+  rw [hnext, hinit, sliceSpec_pos l A B C hC]
+  have hrun := Run.stepN A (h s) (by omega)
+  have := pick_run I.next C hC q hrun (by simp only [List.length_drop]; omega)
+  rw [pick_drop] at this
+  have hm : rangeLen A B C = q := by
+    apply rangeLen_eq_pos A B C q hC
+    intro j
+    constructor
+    · intro hj
+      by_cases hjq : j < q
+      · exact hjq
+      · have := mul_le_of_le (C := C) (show q ≤ j by omega); omega
+    · intro hj
+      have := mul_step_le (C := C) hj
+      rcases hreg with h0 | h1 <;> omega
+  rw [hm]
+  exact this
+
+/-- positive step, backward: `stop` is a multiple of the step and `start = step - 1` -/
+theorem slice_bwd_pos (I : Iterable α) {l : List α} (h : BwdAs I l) (A B C q : Nat) (hC : 1 ≤ C)
+    (hB : q * C = B) (hBn : B ≤ l.length) (hreg : q = 0 ∨ A + 1 = C) :
+    BwdAs (sliceI I l.length A B C) (sliceSpec l A B C) := by
+  intro s
+  have hc : (C : Int) > 0 := by omega
+  have hprev : (sliceI I l.length A B C).prev = fun s => stepN I.prev (C - 1) (I.prev s) := by
+    funext s; simp only [sliceI, hc, if_true, Int.toNat_natCast]
+  have hlast : (sliceI I l.length A B C).last s = stepN I.prev (l.length - B) (I.last s) := by
+    have : ((l.length : Int) - (B : Int)).toNat = l.length - B := by omega
+    simp only [sliceI, hc, if_true, this]
+  rw [hprev, hlast, sliceSpec_pos l A B C hC]
+  have hrun := Run.stepN (l.length - B) (h s) (by simp)
+  have := pick_run I.prev C hC q hrun (by simp only [List.length_drop, List.length_reverse]; omega)
+  rw [pick_reverse_drop l B C q hC hBn hB] at this
+  have hm : rangeLen A B C = q := by
+    apply rangeLen_eq_pos A B C q hC
+    intro j
+    constructor
+    · intro hj
+      by_cases hjq : j < q
+      · exact hjq
+      · have := mul_le_of_le (C := C) (show q ≤ j by omega); omega
+    · intro hj
+      have := mul_step_le (C := C) hj
+      rcases hreg with h0 | h1 <;> omega
+  rw [hm, filterMap_range_reverse]
+  have e : (List.range q).filterMap (fun j => l[A + C * (q - 1 - j)]?) =
+      (List.range q).filterMap (fun j => l[B - 1 - C * j]?) := by
+    apply filterMap_congr'
+    intro j hj
+    have hj' : j < q := List.mem_range.mp hj
+    have := mul_split (C := C) hj'
+    have := mul_step_le (C := C) hj'
+    rcases hreg with h0 | h1
+    · omega
+    · congr 1; omega
+  rw [e]; exact this
+
+/-- negative step `-K`, forward (the walk runs backwards over the underlying iterable) -/
+theorem slice_fwd_neg (I : Iterable α) {l : List α} (h : BwdAs I l) (A B K q : Nat) (hK : 1 ≤ K)
+    (hB : q * K = B) (hBn : B ≤ l.length) (hreg : q = 0 ∨ A + 1 ≤ K) :
+    FwdAs (sliceI I l.length A B (-(K : Int))) (sliceSpec l A B (-(K : Int))) := by
+  intro s
+  have hc : ¬ (-(K : Int) > 0) := by omega
+  have hc' : -(K : Int) < 0 := by omega
+  have hk : (- -(K : Int)).toNat - 1 = K - 1 := by omega
+  have hnext : (sliceI I l.length A B (-(K : Int))).next = fun s => stepN I.prev (K - 1) (I.prev s) := by
+    funext s; simp only [sliceI, hc, if_false, hc', if_true, hk]
+  have hinit : (sliceI I l.length A B (-(K : Int))).init s = stepN I.prev (l.length - B) (I.last s) := by
+    have : ((l.length : Int) - (B : Int)).toNat = l.length - B := by omega
+    simp only [sliceI, hc, if_false, hc', if_true, this]
+  rw [hnext, hinit, sliceSpec_neg l A B K hK]
+  have hrun := Run.stepN (l.length - B) (h s) (by simp)
+  have := pick_run I.prev K hK q hrun (by simp only [List.length_drop, List.length_reverse]; omega)
+  rw [pick_reverse_drop l B K q hK hBn hB] at this
+  have hm : rangeLen A B (-(K : Int)) = q := by
+    apply rangeLen_eq_neg A B K q hK
+    intro j
+    constructor
+    · intro hj
+      by_cases hjq : j < q
+      · exact hjq
+      · have := mul_le_of_le (C := K) (show q ≤ j by omega); omega
+    · intro hj
+      have := mul_step_le (C := K) hj
+      rcases hreg with h0 | h1 <;> omega
+  rw [hm]; exact this
+
+/-- negative step `-K`, backward (the walk runs forwards over the underlying iterable) -/
+theorem slice_bwd_neg (I : Iterable α) {l : List α} (h : FwdAs I l) (A B K q : Nat) (hK : 1 ≤ K)
+    (hA : A + q * K = l.length) (hBn : B ≤ l.length) (hreg : q = 0 ∨ B + K = l.length + 1) :
+    BwdAs (sliceI I l.length A B (-(K : Int))) (sliceSpec l A B (-(K : Int))) := by
+  intro s
+  have hc : ¬ (-(K : Int) > 0) := by omega
+  have hc' : -(K : Int) < 0 := by omega
+  have hk : (- -(K : Int)).toNat - 1 = K - 1 := by omega
+  have hprev : (sliceI I l.length A B (-(K : Int))).prev = fun s => stepN I.next (K - 1) (I.next s) := by
+    funext s; simp only [sliceI, hc, if_false, hc', if_true, hk]
+  have hlast : (sliceI I l.length A B (-(K : Int))).last s = stepN I.next A (I.init s) := by
+    simp only [sliceI, hc, if_false, hc', if_true, Int.toNat_natCast]
+  rw [hprev, hlast, sliceSpec_neg l A B K hK]
+  have hrun := Run.stepN A (h s) (by omega)
+  have := pick_run I.next K hK q hrun (by simp only [List.length_drop]; omega)
+  rw [pick_drop] at this
+  have hm : rangeLen A B (-(K : Int)) = q := by
+    apply rangeLen_eq_neg A B K q hK
+    intro j
+    constructor
+    · intro hj
+      by_cases hjq : j < q
+      · exact hjq
+      · have := mul_le_of_le (C := K) (show q ≤ j by omega)
+        rcases hreg with h0 | h1 <;> omega
+    · intro hj
+      have := mul_step_le (C := K) hj
+      rcases hreg with h0 | h1 <;> omega
+  rw [hm, filterMap_range_reverse]
+  have e : (List.range q).filterMap (fun j => l[B - 1 - K * (q - 1 - j)]?) =
+      (List.range q).filterMap (fun j => l[A + K * j]?) := by
+    apply filterMap_congr'
+    intro j hj
+    have hj' : j < q := List.mem_range.mp hj
+    have := mul_split (C := K) hj'
+    have := mul_step_le (C := K) hj'
+    rcases hreg with h0 | h1
+    · omega
+    · congr 1; omega
+  rw [e]; exact this
+
+/-! ### len and get of a Slice (right for all clamped parameters) -/
+
+theorem getElem?_filterMap_all_some {β γ : Type} (f : β → Option γ) : ∀ (L : List β), (∀ x ∈ L, (f x).isSome) →
+    ∀ i : Nat, (L.filterMap f)[i]? = (L[i]?).bind f := by
+  intro L
+  induction L with
+  | nil => intro _ i; simp
+  | cons x t ih =>
+    intro hall i
+    have hx := hall x (by simp)
+    obtain ⟨y, hy⟩ := Option.isSome_iff_exists.mp hx
+    rw [List.filterMap_cons_some hy]
+    cases i with
+    | zero => simp [hy]
+    | succ i => simpa using ih (fun z hz => hall z (by simp [hz])) i
+
+theorem length_filterMap_all_some {β γ : Type} (f : β → Option γ) : ∀ (L : List β), (∀ x ∈ L, (f x).isSome) →
+    (L.filterMap f).length = L.length := by
+  intro L
+  induction L with
+  | nil => intro _; rfl
+  | cons x t ih =>
+    intro hall
+    obtain ⟨y, hy⟩ := Option.isSome_iff_exists.mp (hall x (by simp))
+    rw [List.filterMap_cons_some hy]
+    simp [ih (fun z hz => hall z (by simp [hz]))]
+
+/-- the positions of a Slice with clamped parameters lie inside the underlying sequence -/
+theorem rangeList_in_range (n A B : Nat) (c : Int) (hB : B ≤ n) :
+    ∀ p ∈ rangeList A B c, 0 ≤ p ∧ p < n := by
+  intro p hp
+  simp only [rangeList, List.mem_map, List.mem_range] at hp
+  obtain ⟨j, hj, rfl⟩ := hp
+  rcases Int.lt_trichotomy c 0 with hc | hc | hc
+  · have hnc : ¬ (c > 0) := by omega
+    have k := (rangeLen_neg_iff A B c hc j).mpr hj
+    have : c * (j : Int) ≤ 0 := Int.mul_nonpos_of_nonpos_of_nonneg (by omega) (by omega)
+    simp only [hnc, if_false]; omega
+  · subst hc; simp [rangeLen] at hj
+  · have k := (rangeLen_pos_iff A B c hc j).mpr hj
+    have : 0 ≤ c * (j : Int) := Int.mul_nonneg (by omega) (by omega)
+    simp only [hc, gt_iff_lt, if_true]; omega
+
+theorem slice_len_get (I : Iterable α) {l : List α} (h : LawfulAs I l) (A B : Nat) (c : Int) (hB : B ≤ l.length) :
+    (∀ n, (sliceI I l.length A B c).len = some n → n = (sliceSpec l A B c).length) ∧
+    (∀ g, (sliceI I l.length A B c).get = some g → ∀ i (hi : i < (sliceSpec l A B c).length),
+      g (Int.ofNat i) = some (sliceSpec l A B c)[i]) := by
+  have hin := rangeList_in_range l.length A B c hB
+  have hall : ∀ p ∈ rangeList A B c, ((fun (p : Int) => if p < 0 then none else l[p.toNat]?) p).isSome := by
+    intro p hp
+    obtain ⟨h0, h1⟩ := hin p hp
+    have : ¬ (p < 0) := by omega
+    have hlt : p.toNat < l.length := by omega
+    simp [this, List.getElem?_eq_getElem hlt]
+  have hlen : (sliceSpec l A B c).length = rangeLen A B c := by
+    rw [sliceSpec, length_filterMap_all_some _ _ hall]; simp [rangeList]
+  constructor
+  · intro n hn
+    simp only [sliceI, Option.some.injEq] at hn
+    rw [hlen, hn]
+  · intro G hG i hi
+    cases hg : I.get with
+    | none => simp [sliceI, hg] at hG
+    | some g =>
+      simp only [sliceI, hg, Option.some.injEq] at hG
+      subst hG
+      have hi' : i < (rangeList A B c).length := by
+        rw [hlen] at hi; simpa [rangeList] using hi
+      have hr := (range_lawfulAs A B c).get (rangeGet A B c) rfl i hi'
+      have hp := hin _ (List.getElem_mem hi')
+      have hpn : ¬ ((rangeList A B c)[i] < 0) := by omega
+      have hlt : ((rangeList A B c)[i]).toNat < l.length := by omega
+      have hx : (sliceSpec l A B c)[i]? = some l[((rangeList A B c)[i]).toNat] := by
+        rw [sliceSpec, getElem?_filterMap_all_some _ _ hall, List.getElem?_eq_getElem hi']
+        simp [hpn, List.getElem?_eq_getElem hlt]
+      obtain ⟨_, hx'⟩ := List.getElem?_eq_some_iff.mp hx
+      rw [hx']
+      have hgi := h.get g hg _ hlt
+      have e : Int.ofNat ((rangeList A B c)[i]).toNat = (rangeList A B c)[i] := by
+        simp only [Int.ofNat_eq_natCast]; omega
+      rw [e] at hgi
+      simp only [hr, hgi]
+
+/-! ### from the region in `Int` form to the index form -/
+
+theorem exists_mul_of_emod (x : Nat) (C : Nat) (hC : 1 ≤ C) (h : (x : Int) % (C : Int) = 0) : ∃ q : Nat, q * C = x := by
+  have hd : (C : Int) ∣ (x : Int) := Int.dvd_of_emod_eq_zero h
+  obtain ⟨k, hk⟩ := hd
+  have hk0 : 0 ≤ k := by
+    by_cases hk0 : 0 ≤ k
+    · exact hk0
+    · have : (C : Int) * k < 0 := Int.mul_neg_of_pos_of_neg (by omega) (by omega)
+      omega
+  obtain ⟨q, rfl⟩ := Int.eq_ofNat_of_zero_le hk0
+  refine ⟨q, ?_⟩
+  have : ((q * C : Nat) : Int) = (x : Int) := by push_cast; rw [Int.mul_comm]; omega
+  exact_mod_cast this
+
+theorem slice_fwdAs (I : Iterable α) {l : List α} (h : LawfulAs I l) (A B : Nat) (c : Int)
+    (hA : A ≤ l.length) (hB : B ≤ l.length) (hr : SliceRegionFwd l.length A B c) :
+    FwdAs (sliceI I l.length A B c) (sliceSpec l A B c) := by
+  rcases hr with ⟨hc, hr⟩ | ⟨hc, hr⟩ | hc
+  · obtain ⟨C, rfl⟩ := Int.eq_ofNat_of_zero_le (show 0 ≤ c by omega)
+    have hC : 1 ≤ C := by omega
+    rcases hr with ha | ⟨hm, hb⟩
+    · have : A = l.length := by omega
+      exact slice_fwd_pos I h.fwd A B C 0 hC (by omega) hB (Or.inl rfl)
+    · have hm' : ((l.length - A : Nat) : Int) % (C : Int) = 0 := by
+        have : ((l.length - A : Nat) : Int) = (l.length : Int) - (A : Int) := by omega
+        rw [this]; exact hm
+      obtain ⟨q, hq⟩ := exists_mul_of_emod (l.length - A) C hC hm'
+      exact slice_fwd_pos I h.fwd A B C q hC (by omega) hB (Or.inr (by omega))
+  · obtain ⟨K, hK⟩ := Int.eq_ofNat_of_zero_le (show 0 ≤ -c by omega)
+    have : c = -(K : Int) := by omega
+    subst this
+    have hK1 : 1 ≤ K := by omega
+    rcases hr with hb | ⟨hm, ha⟩
+    · have : B = 0 := by omega
+      subst this
+      exact slice_fwd_neg I h.bwd A 0 K 0 hK1 (by simp) (by omega) (Or.inl rfl)
+    · have hm' : (B : Int) % (K : Int) = 0 := by simpa using hm
+      obtain ⟨q, hq⟩ := exists_mul_of_emod B K hK1 hm'
+      exact slice_fwd_neg I h.bwd A B K q hK1 hq hB (Or.inr (by omega))
+  · subst hc
+    intro s
+    have : sliceSpec l A B 0 = [] := by simp [sliceSpec, rangeList, rangeLen]
+    rw [this]
+    exact Run.of_term (by simp [sliceI])
+
+theorem slice_bwdAs (I : Iterable α) {l : List α} (h : LawfulAs I l) (A B : Nat) (c : Int)
+    (hA : A ≤ l.length) (hB : B ≤ l.length) (hr : SliceRegionBwd l.length A B c) :
+    BwdAs (sliceI I l.length A B c) (sliceSpec l A B c) := by
+  rcases hr with ⟨hc, hr⟩ | ⟨hc, hr⟩ | hc
+  · obtain ⟨C, rfl⟩ := Int.eq_ofNat_of_zero_le (show 0 ≤ c by omega)
+    have hC : 1 ≤ C := by omega
+    rcases hr with hb | ⟨hm, ha⟩
+    · have : B = 0 := by omega
+      subst this
+      exact slice_bwd_pos I h.bwd A 0 C 0 hC (by simp) (by omega) (Or.inl rfl)
+    · obtain ⟨q, hq⟩ := exists_mul_of_emod B C hC hm
+      exact slice_bwd_pos I h.bwd A B C q hC hq hB (Or.inr (by omega))
+  · obtain ⟨K, hK⟩ := Int.eq_ofNat_of_zero_le (show 0 ≤ -c by omega)
+    have : c = -(K : Int) := by omega
+    subst this
+    have hK1 : 1 ≤ K := by omega
+    rcases hr with ha | ⟨hm, hb⟩
+    · have : A = l.length := by omega
+      exact slice_bwd_neg I h.fwd A B K 0 hK1 (by omega) hB (Or.inl rfl)
+    · have hm' : ((l.length - A : Nat) : Int) % (K : Int) = 0 := by
+        have : ((l.length - A : Nat) : Int) = (l.length : Int) - (A : Int) := by omega
+        rw [this]; simpa using hm
+      obtain ⟨q, hq⟩ := exists_mul_of_emod (l.length - A) K hK1 hm'
+      exact slice_bwd_neg I h.fwd A B K q hK1 (by omega) hB (Or.inr (by omega))
+  · subst hc
+    intro s
+    have : sliceSpec l A B 0 = [] := by simp [sliceSpec, rangeList, rangeLen]
+    rw [this]
+    exact Run.of_term (by simp [sliceI])
+
 end Cello.Iter
